@@ -181,8 +181,45 @@ func hintCompare(en *Env, e *h.Eng) {
 	if err := h.CopyImage(h.MergePath(e.Dir), h.MergePath(cdir), nil, nil); err != nil {
 		return
 	}
+	// the adoption of this copy is also interrupted: an image of both directories is taken in front of every step of
+	// the adoption (process death there), and every image is opened through whatever the resumed adoption leaves and
+	// then once more by a plain scan - the two indexes must agree with each other and with the model
+	var imgs []string
+	if e.Cfg.IO == "std" {
+		h.SetIOHandler(func(io h.IOEv) {
+			if io.Kind != "point" || len(io.Path) < 6 || io.Path[:6] != "adopt." || len(imgs) >= 6 {
+				return
+			}
+			img := en.FreshDir()
+			h.WithoutCapture(func() {
+				if h.CopyImage(cdir, img, nil, nil) == nil {
+					h.CopyImage(h.MergePath(cdir), h.MergePath(img), nil, nil)
+					imgs = append(imgs, img)
+				}
+			})
+		})
+	}
 	ev := h.Ev{"ev": "hintcmp"}
 	oa, va, ia, db := observe(e, cdir, e.Cfg)
+	h.SetIOHandler(nil)
+	defer func() {
+		for _, img := range imgs {
+			ev2 := h.Ev{"ev": "hintcmp"}
+			o1, v1, i1, d1 := observe(e, img, e.Cfg)
+			c1 := "ok"
+			if d1 != nil {
+				c1 = h.Guard(h.CallTimeout, func() error { return d1.Close() })
+			}
+			o2, v2, i2, d2 := observe(e, img, e.Cfg)
+			if d2 != nil {
+				h.Guard(h.CallTimeout, func() error { return d2.Close() })
+			}
+			ev2["opena"], ev2["vala"], ev2["idxa"], ev2["closea"] = o1, v1, i1, c1
+			ev2["openb"], ev2["valb"], ev2["idxb"] = o2, v2, i2
+			e.T.Emit(ev2)
+			en.Drop(img)
+		}
+	}()
 	ca := "ok"
 	if db != nil {
 		ca = h.Guard(h.CallTimeout, func() error { return db.Close() })
